@@ -1,9 +1,11 @@
 import Vata.Parse
 import Vata.Generated.Tables
 import Vata.InclUpBdd
+import Vata.Proofs.InclUpBddTotal
 import Vata.BddIsect
 import Vata.BddAbsTD
 import Driver.BddShareChk
+import Vata.Properties.C07
 /-! # Driver side of the BDD-encoding checks: `bddincl`, `bddinclall` (C07), `bddh`, `bddtd` (C08) -/
 open Vata
 
@@ -34,12 +36,25 @@ def checkIncl (args res : List String) : Except String (List String × String) :
     else if c == 'T' then over := over + 1
     else if c != bchar exp then f := f ++ [s!"violation bddincl[{n}]={c} reference={bchar exp}"]
   -- the L2 model of the (repaired) bottom-up upward algorithm (`inclUpBdd_iff`) against the implementation's verdict
-  match checkInclUpBdd A B 200000 with
+  -- fuel above the proved bound (`checkInclUpBdd_complete`): `none` is then impossible for the model as proved
+  match checkInclUpBdd A B (InclUpBdd.fuelBoundBdd (removeUseless A) (removeUseless B) + 1) with
   | some (b, _) =>
     let c := v.toList[3]!
     if c != 'T' && bchar b != c then f := f ++ [s!"mismatch bdd-upward-model verdict {bchar b} implementation {c}"]
     if b != exp then throw "internal: certifying bdd upward model contradicts the reference"
   | none => f := f ++ ["mismatch bdd-upward-model returned none (fuel / certificate)"]
+  -- the downward selections through `C07Sel.model` (the function `C07_every_selection_exact` / `C07_total_selections` are about):
+  -- exponential like the code, so on small operands only and where the implementation answered within its budget
+  if A.states.length + B.states.length ≤ 6 && A.rules.eraseDups.length + B.rules.eraseDups.length ≤ 12 then
+    for (name, ix, sel) in [("td down-rec", 0, Vata.Props.C07Sel.tdRec), ("td down-rec-opt", 1, .tdRecOpt),
+        ("bu down-rec+sim", 4, .buDownSim)] do
+      let c := v.toList[ix]!
+      if c == 'T' || c == '-' then continue
+      match sel.model [] A B 100000 with
+      | some (b, _) =>
+        if bchar b != c then f := f ++ [s!"mismatch {name}-model verdict {bchar b} implementation {c}"]
+        if b != exp then throw s!"internal: certifying {name} model contradicts the reference"
+      | none => f := f ++ [s!"mismatch {name}-model returned none (fuel / certificate)"]
   let eA ← getE (emptyM A FUEL) "fuel"
   pure (f, s!"incl={bchar exp} emptyA={bchar eA} overrun={over}")
 
